@@ -162,6 +162,8 @@ type tScreen struct {
 	cursorStyles map[CursorStyle]string
 	cursorStyle  CursorStyle
 	cursorColor  Color
+	cursorStyleSet bool // a non-default cursor style has been sent to the terminal
+	cursorColorSet bool // a cursor color has been sent to the terminal
 	cursorRGB    string
 	cursorFg     string
 	saved        *term.State
@@ -982,14 +984,17 @@ func (t *tScreen) showCursor() {
 	if t.cursorStyles != nil {
 		if esc, ok := t.cursorStyles[t.cursorStyle]; ok {
 			t.TPuts(esc)
+			t.cursorStyleSet = t.cursorStyle != CursorStyleDefault
 		}
 	}
 	if t.cursorRGB != "" {
 		if t.cursorColor == ColorReset {
 			t.TPuts(t.cursorFg)
+			t.cursorColorSet = false
 		} else if t.cursorColor.Valid() {
 			r, g, b := t.cursorColor.RGB()
 			t.TPuts(t.ti.TParm(t.cursorRGB, int(r), int(g), int(b)))
+			t.cursorColorSet = true
 		}
 	}
 	t.cx = x
@@ -2097,11 +2102,13 @@ func (t *tScreen) disengage() {
 	ti := t.ti
 	t.cells.Resize(0, 0)
 	t.TPuts(ti.ShowCursor)
-	if t.cursorStyles != nil && t.cursorStyle != CursorStyleDefault {
+	if t.cursorStyles != nil && t.cursorStyleSet {
 		t.TPuts(t.cursorStyles[CursorStyleDefault])
+		t.cursorStyleSet = false
 	}
-	if t.cursorFg != "" && t.cursorColor.Valid() {
+	if t.cursorFg != "" && t.cursorColorSet {
 		t.TPuts(t.cursorFg)
+		t.cursorColorSet = false
 	}
 	t.TPuts(ti.ResetFgBg)
 	t.TPuts(ti.AttrOff)
